@@ -446,6 +446,18 @@ func (c09) RunCase(c fw.Case, env *fw.Env) *fw.CaseResult {
 	// A writer's cache transaction outlives its storage transaction (the cache commit comes after
 	// the storage commit returned). Seeded pauses right after the storage commit let the next
 	// batch, or a search, get in between the two.
+	// ... and a storage read is a place where a goroutine can lose the processor for a while: one read
+	// in sixteen of a graph index bucket pauses, which spreads the workers of a batch (and the
+	// sub-queries of a search) that miss the cache on the same item
+	var opPauses atomic.Uint64
+	px.OpHook = func(bucket, kind string, key []byte) {
+		if kind != "get" || !strings.Contains(bucket, "vectorVamana") {
+			return
+		}
+		if fw.SplitMix(c.Seed^0x9e37^opPauses.Add(1))%16 == 0 {
+			time.Sleep(150 * time.Microsecond)
+		}
+	}
 	var commitPauses atomic.Uint64
 	px.AfterCommit = func() {
 		n := commitPauses.Add(1)
